@@ -4,6 +4,7 @@
 // destination URI, plus recomposed text and well-formedness.
 #include "gen.hpp"
 #include "parse_common.hpp"
+#include "pathenum.hpp"
 
 using namespace vf;
 
@@ -168,4 +169,17 @@ static std::string selftest() {
   return "";
 }
 
-const Harness vf::HARNESS = {"C06", gen, check, nullptr, selftest};
+// every (base, reference) pair of the bounded path domain, both option values
+static Verdict enumerate(int tier, int shard, int nshards, Fields *failing) {
+  static PathDomain d = path_domain(tier);
+  uint64_t nb = d.bases.size(), nr = d.refs.size();
+  stats().hit("enum_bases", shard == 0 ? nb : 0); stats().hit("enum_refs", shard == 0 ? nr : 0);
+  return enum_drive(nb * nr * 2, shard, nshards, check, [&](uint64_t i) {
+    Fields f;
+    f.set("base", d.bases[(size_t)(i / 2 / nr)]); f.set("ref", d.refs[(size_t)(i / 2 % nr)]);
+    f.seti("opt", (long long)(i & 1)); f.seti("api", (long long)(i % 3)); f.seti("kind", 9); f.seti("fault", 0);
+    return f;
+  }, failing);
+}
+
+const Harness vf::HARNESS = {"C06", gen, check, enumerate, selftest};
